@@ -525,19 +525,24 @@ impl<const BITS: usize, const LIMBS: usize> TryFrom<f64> for Uint<BITS, LIMBS> {
         // All non-normal cases should have been handled above
         assert!(value.is_normal());
 
-        // Add offset to round to nearest integer.
-        let value = value + 0.5;
-
         // Parse IEEE-754 double
-        // Sign should be zero, exponent should be >= 0.
+        // Sign should be zero, exponent should be >= -1 (value is at least 0.5).
         let bits = value.to_bits();
         let sign = bits >> 63;
         assert!(sign == 0);
         let biased_exponent = (bits >> 52) & 0x7ff;
-        assert!(biased_exponent >= 1023);
-        let exponent = biased_exponent - 1023;
+        assert!(biased_exponent >= 1022);
         let fraction = bits & 0x000f_ffff_ffff_ffff;
         let mantissa = 0x0010_0000_0000_0000 | fraction;
+
+        // Round to the nearest integer, ties up. This is done on the mantissa
+        // because `value + 0.5` rounds to even for odd integers in [2^52, 2^53).
+        if biased_exponent < 1023 + 52 {
+            let shift = 1023 + 52 - biased_exponent;
+            let half = 1_u64 << (shift - 1);
+            return Self::try_from((mantissa + half) >> shift);
+        }
+        let exponent = biased_exponent - 1023;
 
         // Convert mantissa * 2^(exponent - 52) to Uint
         #[allow(clippy::cast_possible_truncation)] // exponent is small-ish
